@@ -600,6 +600,11 @@ class HybridLoad:
                         peak_last_avg_hour = last_avg_hour
                     # monthly average conditions between cooling peak and heating peak
                     if self.monthly_peak_hl[i] > 0 and ipf[i]:
+                        if not self.monthly_peak_cl[i] > 0:
+                            # no cooling peak ahead of the heating peak: monthly average conditions up to noon
+                            last_avg_hour = first_hour_heating_peak + self.monthly_peak_hl_duration[i] / 2
+                            self.load = np.append(self.load, month_rate)
+                            self.hour = np.append(self.hour, last_avg_hour)
                         # heating peak
                         # self.load = np.append(self.load, self.monthly_peak_hl[i]) JDS corrected 20200604
 
